@@ -552,6 +552,160 @@ theorem votePlan_ok (d : Durable) (v : Vol) (q : VoteReq) (hsync : v.term = d.cu
     simp only [List.mem_cons, List.mem_nil_iff, or_false] at hs
     rcases hs with hs | hs <;> (subst hs; exact hT)
 
+/-! ## the candidate loop -/
+
+/-- writes of a campaign after its first term write: vote writes, or a later (larger) term -/
+def Write.risingFrom (x : Nat) : Write → Prop
+  | .setTerm y => x ≤ y
+  | .setVoteTerm _ => True
+  | .setVoteCand _ => True
+  | _ => False
+
+theorem rising_term (x : Nat) (ws : List Write) (d1 : Durable) (h1 : x ≤ d1.curTerm)
+    (hws : ∀ w ∈ ws, w.risingFrom x) : x ≤ (applyAll d1 ws).curTerm := by
+  induction ws generalizing d1 with
+  | nil => exact h1
+  | cons w rest ih =>
+    simp only [applyAll, List.foldl_cons]
+    apply ih
+    · have hw := hws w List.mem_cons_self
+      cases w <;> simp only [Write.risingFrom] at hw <;> simp only [Write.apply] <;> first | omega | exact h1 | (cases hw)
+    · intro w' hw'; exact hws w' (List.mem_cons_of_mem _ hw')
+
+/-- a plan that writes nothing, or starts by raising the durable term and afterwards writes only the
+    vote record or still larger terms, and whose every write failure is the death of the process -/
+theorem rising_ok (d : Durable) (p : Plan)
+    (hshape : p.steps = [] ∨ ∃ x r0 rest, p.steps = (.setTerm x, r0) :: rest ∧ d.curTerm < x ∧
+        ∀ s ∈ rest, s.1.risingFrom x)
+    (hpanic : ∀ s ∈ p.steps, s.2.panic = true)
+    (hfinal : p.final.vol.term = (applyAll d p.writes).curTerm) : PlanOK d p := by
+  have key : ∀ k, p.writes.take k = [] ∨ ∃ x, d.curTerm < x ∧ x ≤ (applyAll d (p.writes.take k)).curTerm := by
+    intro k
+    rcases hshape with h0 | ⟨x, r0, rest, hs, hx, hr⟩
+    · left; unfold Plan.writes; rw [h0]; simp
+    · cases k with
+      | zero => left; simp
+      | succ k =>
+        right
+        refine ⟨x, hx, ?_⟩
+        unfold Plan.writes; rw [hs]
+        simp only [List.map_cons, List.take_succ_cons, applyAll, List.foldl_cons]
+        apply rising_term x _ (Write.apply d (.setTerm x)) (by simp [Write.apply])
+        intro w hw
+        obtain ⟨s, hs', rfl⟩ := List.mem_map.mp (List.mem_of_mem_take hw)
+        exact hr s hs'
+  refine ⟨?_, ?_, ?_, fun _ => hfinal⟩
+  · intro t c k hb
+    rcases key k with h0 | ⟨x, hx, hle⟩
+    · rw [h0]; exact hb
+    · left
+      rcases hb with hb | ⟨hb, _, _⟩ <;> omega
+  · intro k
+    rcases key k with h0 | ⟨x, hx, hle⟩
+    · rw [h0]; exact Nat.le_refl _
+    · omega
+  · intro k w r hs hnp
+    have := hpanic (w, r) (List.mem_of_getElem? hs)
+    rw [this] at hnp; cases hnp
+
+/-- a newer term seen by `tally` is above the limit -/
+theorem tally_higher (needed limit g : Nat) (l : List (Nat × Bool)) (t : Nat)
+    (h : tally needed limit g l = .higher t) : limit < t := by
+  induction l generalizing g with
+  | nil => simp [tally] at h
+  | cons a rest ih =>
+    unfold tally at h
+    by_cases h1 : a.1 > limit
+    · rw [if_pos h1] at h; injection h with h; omega
+    · rw [if_neg h1] at h
+      simp only [] at h
+      by_cases h2 : (if a.2 = true then g + 1 else g) ≥ needed
+      · rw [if_pos h2] at h; cases h
+      · rw [if_neg h2] at h; exact ih _ h
+
+theorem campBase_writes (v : Vol) :
+    ∃ rest, campBase v = (.setTerm (v.term + 1), campDead v) :: rest ∧
+      (∀ s ∈ rest, s.1.risingFrom (v.term + 1)) ∧ (∀ s ∈ campBase v, s.2.panic = true) ∧
+      (∀ d : Durable, (applyAll d ((campBase v).map (·.1))).curTerm = v.term + 1) := by
+  unfold campBase
+  by_cases hv : hasVote v.latest selfId = true
+  · simp only [hv, if_true]
+    refine ⟨_, rfl, ?_, ?_, ?_⟩
+    · intro s hs
+      simp only [List.mem_cons, List.mem_nil_iff, or_false] at hs
+      rcases hs with hs | hs <;> (subst hs; simp [Write.risingFrom])
+    · intro s hs
+      simp only [List.mem_cons, List.mem_nil_iff, or_false] at hs
+      rcases hs with hs | hs | hs <;> (subst hs; rfl)
+    · intro d; simp [applyAll, Write.apply]
+  · have hv' : hasVote v.latest selfId = false := by simpa using hv
+    simp only [hv', Bool.false_eq_true, if_false]
+    refine ⟨[], rfl, by simp, ?_, ?_⟩
+    · intro s hs
+      simp only [List.mem_cons, List.mem_nil_iff, or_false] at hs
+      subst hs; rfl
+    · intro d; simp [applyAll, Write.apply]
+
+theorem campElect_ok (d : Durable) (v : Vol) (rs : List PeerResp) (pre : List Nat) (hsync : v.term = d.curTerm) :
+    PlanOK d (campElect v rs pre) := by
+  obtain ⟨rest, hb, hr, hp, hc⟩ := campBase_writes v
+  unfold campElect
+  simp only []
+  cases ht : tally (quorumOf v.latest) (v.term + 1) 0 (campSelf v ++ voteAnswers (v.term + 1) (campAsked v) rs) with
+  | won =>
+    simp only []
+    apply rising_ok
+    · right; exact ⟨v.term + 1, campDead v, rest, hb, by omega, hr⟩
+    · exact hp
+    · simp only [Plan.writes, mkRes, campDone]; rw [hc]
+  | «open» =>
+    simp only []
+    apply rising_ok
+    · right; exact ⟨v.term + 1, campDead v, rest, hb, by omega, hr⟩
+    · exact hp
+    · simp only [Plan.writes, mkRes, campDone]; rw [hc]
+  | higher t =>
+    simp only []
+    have hgt := tally_higher _ _ _ _ _ ht
+    apply rising_ok
+    · right
+      refine ⟨v.term + 1, campDead v, rest ++ [(.setTerm t, campDead { v with term := v.term + 1 })], by rw [hb]; rfl, by omega, ?_⟩
+      intro s hs
+      rcases List.mem_append.mp hs with hs | hs
+      · exact hr s hs
+      · simp only [List.mem_cons, List.mem_nil_iff, or_false] at hs
+        subst hs; simp only [Write.risingFrom]; omega
+    · intro s hs
+      rcases List.mem_append.mp hs with hs | hs
+      · exact hp s hs
+      · simp only [List.mem_cons, List.mem_nil_iff, or_false] at hs
+        subst hs; rfl
+    · simp only [Plan.writes, mkRes, campDone, stepDown, List.map_append, List.map_cons, List.map_nil, applyAll,
+        List.foldl_append, List.foldl_cons, List.foldl_nil, Write.apply]
+
+theorem campaign_ok (cf : Cfg) (d : Durable) (v : Vol) (rs : List PeerResp) (hsync : v.term = d.curTerm) :
+    PlanOK d (campaign cf v rs) := by
+  unfold campaign
+  split
+  · exact campElect_ok d v rs [] hsync
+  · cases ht : tally (quorumOf v.latest) (v.term + 1) 0 (campSelf v ++ preVoteAnswers (v.term + 1) (campAsked v) rs) with
+    | won => exact campElect_ok d v rs _ hsync
+    | «open» =>
+      simp only []
+      apply rising_ok
+      · left; rfl
+      · intro s hs; cases hs
+      · simp only [Plan.writes, mkRes, campDone, List.map_nil, applyAll, List.foldl_nil]; exact hsync
+    | higher t =>
+      simp only []
+      have hgt := tally_higher _ _ _ _ _ ht
+      apply rising_ok
+      · right; exact ⟨t, campDead v, [], rfl, by omega, by simp⟩
+      · intro s hs
+        simp only [List.mem_cons, List.mem_nil_iff, or_false] at hs
+        subst hs; rfl
+      · simp [Plan.writes, mkRes, campDone, stepDown, applyAll, Write.apply]
+
 /-- a granting final answer: the answering state carries the request's term, and a vote record of
     that term for someone else would have made the answer a refusal -/
 theorem votePlan_granted_facts (d : Durable) (v : Vol) (q : VoteReq) (t : Nat)
@@ -621,6 +775,7 @@ theorem planOf_ok (w : World) (hs : w.v.term = w.d.curTerm) (e : Event) (p : Pla
   | install q f' c' => simp [planOf] at h; obtain ⟨rfl, _, _⟩ := h; exact plain_ok _ _ _ hs (isPlan_plain _ _ _ _)
   | timeoutNow => simp [planOf] at h; obtain ⟨rfl, _, _⟩ := h; exact plain_ok _ _ _ hs (timeoutNowPlan_plain _)
   | snapshot f' c' => simp [planOf] at h; obtain ⟨rfl, _, _⟩ := h; exact plain_ok _ _ _ hs (snapPlan_plain _ _ _ _ _)
+  | campaign rs => simp [planOf] at h; obtain ⟨rfl, _, _⟩ := h; exact campaign_ok _ _ _ _ hs
   | restart => simp [planOf] at h
   | damagedRestart => simp [planOf] at h
   | setRole _ _ _ => simp [planOf] at h
@@ -713,12 +868,89 @@ theorem step_inv (w : World) (e : Event) (hs : Synced w) :
     | install q f c => exact plan _ _ _ (planOf_ok w hsync (.install q f c) _ _ _ rfl)
     | timeoutNow => exact plan _ _ _ (planOf_ok w hsync .timeoutNow _ _ _ rfl)
     | snapshot f c => exact plan _ _ _ (planOf_ok w hsync (.snapshot f c) _ _ _ rfl)
+    | campaign rs => exact plan _ _ _ (planOf_ok w hsync (.campaign rs) _ _ _ rfl)
+
+theorem stepPlan_durable' (w : World) (p : Plan) (f c : Option Nat) :
+    (stepPlan w p f c).1.d = applyAll w.d (exec p f c).2 := by
+  unfold stepPlan
+  simp only []
+  split
+  · split <;> rfl
+  · rfl
+
+/-- a candidate's vote for itself, read off the writes of its campaign: the term and candidate it
+    has just persisted -/
+def selfVoteOf : List Write → Option (Nat × Nat)
+  | .setTerm _ :: .setVoteTerm t :: .setVoteCand c :: _ => some (t, c)
+  | _ => none
 
 /-- the grant an observation reports, if any: (term, candidate) -/
 def grantOf (e : Event) (o : Obs) : Option (Nat × Nat) :=
-  match e, o.resp with
-  | .vote q _ _, .vote t true => some (t, q.cand)
-  | _, _ => none
+  match e with
+  | .vote q _ _ => (match o.resp with
+      | .vote t true => some (t, q.cand)
+      | _ => none)
+  | .campaign _ => (match o.resp with
+      | .campaigned _ _ _ _ _ _ => selfVoteOf o.writes
+      | _ => none)
+  | _ => none
+
+/-- the writes of one pass of the candidate loop: nothing; a newer term learnt in the pre-vote round;
+    or the new term, the candidate's own vote if it is a voter, and possibly a still newer term -/
+theorem campaign_writes (cf : Cfg) (v : Vol) (rs : List PeerResp) :
+    (campaign cf v rs).final.panic = false ∧
+    ((campaign cf v rs).writes = [] ∨
+     (∃ t, v.term + 1 < t ∧ (campaign cf v rs).writes = [.setTerm t]) ∨
+     (∃ tail, (campaign cf v rs).writes = .setTerm (v.term + 1) :: tail ∧
+        (tail = [] ∨ ∃ t, v.term + 1 < t ∧ tail = [.setTerm t])) ∨
+     (∃ tail, (campaign cf v rs).writes =
+          .setTerm (v.term + 1) :: .setVoteTerm (v.term + 1) :: .setVoteCand selfAddr :: tail ∧
+        (tail = [] ∨ ∃ t, v.term + 1 < t ∧ tail = [.setTerm t]))) := by
+  have elect : ∀ pre, (campElect v rs pre).final.panic = false ∧
+      ((∃ tail, (campElect v rs pre).writes = .setTerm (v.term + 1) :: tail ∧
+          (tail = [] ∨ ∃ t, v.term + 1 < t ∧ tail = [.setTerm t])) ∨
+       (∃ tail, (campElect v rs pre).writes =
+            .setTerm (v.term + 1) :: .setVoteTerm (v.term + 1) :: .setVoteCand selfAddr :: tail ∧
+          (tail = [] ∨ ∃ t, v.term + 1 < t ∧ tail = [.setTerm t]))) := by
+    intro pre
+    unfold campElect
+    simp only []
+    have hbase : (campBase v).map (·.1) = [.setTerm (v.term + 1)] ∨
+        (campBase v).map (·.1) = [.setTerm (v.term + 1), .setVoteTerm (v.term + 1), .setVoteCand selfAddr] := by
+      unfold campBase
+      by_cases hv : hasVote v.latest selfId = true
+      · right; simp [hv]
+      · have hv' : hasVote v.latest selfId = false := by simpa using hv
+        left; simp [hv']
+    cases ht : tally (quorumOf v.latest) (v.term + 1) 0 (campSelf v ++ voteAnswers (v.term + 1) (campAsked v) rs) with
+    | won =>
+      refine ⟨rfl, ?_⟩
+      rcases hbase with hb | hb
+      · left; exact ⟨[], by simp [Plan.writes, hb], Or.inl rfl⟩
+      · right; exact ⟨[], by simp [Plan.writes, hb], Or.inl rfl⟩
+    | «open» =>
+      refine ⟨rfl, ?_⟩
+      rcases hbase with hb | hb
+      · left; exact ⟨[], by simp [Plan.writes, hb], Or.inl rfl⟩
+      · right; exact ⟨[], by simp [Plan.writes, hb], Or.inl rfl⟩
+    | higher t =>
+      have hgt := tally_higher _ _ _ _ _ ht
+      refine ⟨rfl, ?_⟩
+      rcases hbase with hb | hb
+      · left; exact ⟨[.setTerm t], by simp [Plan.writes, hb], Or.inr ⟨t, hgt, rfl⟩⟩
+      · right; exact ⟨[.setTerm t], by simp [Plan.writes, hb], Or.inr ⟨t, hgt, rfl⟩⟩
+  unfold campaign
+  split
+  · obtain ⟨a, b⟩ := elect []
+    exact ⟨a, Or.inr (Or.inr b)⟩
+  · cases ht : tally (quorumOf v.latest) (v.term + 1) 0 (campSelf v ++ preVoteAnswers (v.term + 1) (campAsked v) rs) with
+    | won =>
+      obtain ⟨a, b⟩ := elect (campAsked v)
+      exact ⟨a, Or.inr (Or.inr b)⟩
+    | «open» => exact ⟨rfl, Or.inl rfl⟩
+    | higher t =>
+      have hgt := tally_higher _ _ _ _ _ ht
+      exact ⟨rfl, Or.inr (Or.inl ⟨t, hgt, rfl⟩)⟩
 
 /-- all grants reported along a run, in order -/
 def grants : World → List Event → List (Nat × Nat)
@@ -760,11 +992,9 @@ theorem grant_step (w : World) (e : Event) (hs : Synced w) (t c : Nat)
         · rw [if_neg hpan] at hg
           simp only [grantOf] at hg
           split at hg
-          · rename_i q' _ _ t' heq1 heq2
+          · rename_i t' heq
             injection hg with hg; injection hg with h1 h2
-            injection heq1 with e1 _ _
-            subst e1
-            exact ⟨by simpa using hpan, by rw [← h1]; exact heq2, h2.symm⟩
+            exact ⟨by simpa using hpan, by rw [← h1]; exact heq, h2.symm⟩
           · cases hg
       obtain ⟨hnp, hresp, hc⟩ := hobs
       subst hc
@@ -794,6 +1024,45 @@ theorem grant_step (w : World) (e : Event) (hs : Synced w) (t c : Nat)
   | install q f c' => simp [grantOf] at hg
   | timeoutNow => simp [grantOf] at hg
   | snapshot f' c' => simp [grantOf] at hg
+  | campaign rs =>
+    unfold stepEvent at hg ⊢
+    by_cases hd : w.dead = true
+    · rw [if_pos hd] at hg; simp [grantOf, deadObs] at hg
+    · rw [if_neg hd] at hg ⊢
+      have hdead : w.dead = false := by simpa using hd
+      have hsync := hs hdead
+      simp only [planOf] at hg ⊢
+      obtain ⟨hnp, hcases⟩ := campaign_writes w.cf w.v rs
+      have hd' := stepPlan_durable' w (campaign w.cf w.v rs) none none
+      -- nothing armed: the plan runs to its end and the observation lists all its writes
+      have hobs : (stepPlan w (campaign w.cf w.v rs) none none).2.writes = (campaign w.cf w.v rs).writes := by
+        unfold stepPlan
+        simp only [exec_none, hnp, Bool.false_eq_true, if_false]
+      have hresp : (stepPlan w (campaign w.cf w.v rs) none none).2.resp = (campaign w.cf w.v rs).final.resp := by
+        unfold stepPlan
+        simp only [exec_none, hnp, Bool.false_eq_true, if_false]
+      rw [exec_none] at hd'
+      have hsv : selfVoteOf (campaign w.cf w.v rs).writes = some (t, c) := by
+        simp only [grantOf, hobs] at hg
+        split at hg
+        · exact hg
+        · cases hg
+      -- only the shape with the candidate's own vote reports a grant
+      rcases hcases with h0 | ⟨t', _, h1⟩ | ⟨tail, h2, htail⟩ | ⟨tail, h3, htail⟩
+      · rw [h0] at hsv; simp [selfVoteOf] at hsv
+      · rw [h1] at hsv; simp [selfVoteOf] at hsv
+      · rw [h2] at hsv
+        rcases htail with rfl | ⟨t', _, rfl⟩ <;> simp [selfVoteOf] at hsv
+      · rw [h3] at hsv
+        simp only [selfVoteOf, Option.some.injEq, Prod.mk.injEq] at hsv
+        obtain ⟨rfl, rfl⟩ := hsv
+        constructor
+        · rw [hd', h3]
+          rcases htail with rfl | ⟨t', ht', rfl⟩
+          · right; simp [applyAll, Write.apply]
+          · left; simp [applyAll, Write.apply]; omega
+        · intro c' hb
+          rcases hb with hb | ⟨hb, _, _⟩ <;> omega
   | restart => simp [grantOf] at hg
   | damagedRestart => simp [grantOf] at hg
   | setRole _ _ _ => simp [grantOf] at hg
